@@ -20,7 +20,7 @@
 
 struct mtask_s {
 	int present;
-	char uid[16];
+	char uid[64];
 	unsigned owner;
 	int nocc;
 	double occ[M_MAXOCC];
@@ -39,7 +39,7 @@ struct model_s {
 	/* live executions in spawn order: which model task they belong to (by uid), -1 = task gone */
 	int nchld;
 	struct {
-		char uid[16];
+		char uid[64];
 		int pid;
 		int gen;
 	} chld[HX_MAXCHLD];
@@ -89,7 +89,39 @@ static const struct tpl_s tpls[] = {
 #define NTPL	((int)(sizeof(tpls) / sizeof(*tpls)))
 
 static const unsigned users[] = {1000, 1001, 0};
-static const char *const uids[] = {"A", "B", "CC"};
+/* Task oids are 32-bit hashes of the UID.  For C11 the second UID is searched at start-up so that its hash
+ * agrees with the first one's in the low 6..10 bits (the 16-slot table then has to grow by much more than
+ * double), and the third so that it sits in another slot of the small table but has hash bits between
+ * the old and the new table size */
+static char uidbuf[3][24] = {"A", "B", "CC"};
+static const char *const uids[] = {uidbuf[0], uidbuf[1], uidbuf[2]};
+
+static void
+pick_colliding_uids(void)
+{
+	const uint32_t ha = (uint32_t)obint("A", 1);
+	int ctz = 0;
+	for (int i = 0; i < 2000000; i++) {
+		char tmp[24];
+		int n = snprintf(tmp, sizeof(tmp), "B%d", i);
+		uint32_t h = (uint32_t)obint(tmp, (size_t)n);
+		uint32_t d = h ^ ha;
+		if (d && __builtin_ctz(d) >= 6 && __builtin_ctz(d) <= 10) {
+			snprintf(uidbuf[1], sizeof(uidbuf[1]), "%s", tmp);
+			ctz = __builtin_ctz(d);
+			break;
+		}
+	}
+	for (int i = 0; ctz && i < 2000000; i++) {
+		char tmp[24];
+		int n = snprintf(tmp, sizeof(tmp), "C%d", i);
+		uint32_t h = (uint32_t)obint(tmp, (size_t)n);
+		if ((h & 15U) != (ha & 15U) && ((h >> 5) & ((1U << (ctz - 4)) - 1U))) {
+			snprintf(uidbuf[2], sizeof(uidbuf[2]), "%s", tmp);
+			break;
+		}
+	}
+}
 
 /* ---------------- events ---------------- */
 enum {E_ADD, E_CANCEL, E_TICK_ONTIME, E_TICK_IDLE, E_TICK_LATE, E_EXIT, E_LIST, E_SCHED, E_ADDOWN, E_ADD2, E_TICK_EXACT};
@@ -642,7 +674,7 @@ canon(void)
 	}
 	/* live children: which task currently occupies the slot they point to */
 	{
-		char tags[HX_MAXCHLD][24];
+		char tags[HX_MAXCHLD][160];
 		for (int c = 0; c < hx_nchld; c++) {
 			const char *occ = "dangling";
 			for (int i = 0; i < nobs; i++) {
@@ -686,7 +718,7 @@ canon(void)
 		h = hx_hash(h, &t->tpl, sizeof(t->tpl));
 	}
 	{
-		char tags[HX_MAXCHLD][24];
+		char tags[HX_MAXCHLD][160];
 		for (int c = 0; c < M.nchld; c++) {
 			struct mtask_s *t = m_find(M.chld[c].uid);
 			snprintf(tags[c], sizeof(tags[c]), "%s%s", M.chld[c].uid, t && t->gen == M.chld[c].gen ? "" : "(old)");
@@ -866,6 +898,9 @@ enumerate(void)
 		(void)syscall(SYS_sched_setaffinity, 0L, (long)sizeof(mask), (long)mask, 0L, 0L, 0L);
 	}
 	hx_boot(1);
+	if (prop == 11) {
+		pick_colliding_uids();
+	}
 	memset(&M, 0, sizeof(M));
 	hist[0] = '\0';
 
